@@ -389,3 +389,8 @@ Definition run_varint (inp : list Z) : list Z :=
   | [n] => out_res out_list (encode_variable_int n)
   | _ => bad_input
   end.
+Definition run_meta_ok (inp : list Z) : list Z :=
+  match in_meta inp with
+  | Some (x, []) => out_bool (meta_ok x) ++ out_bool (meta_rt_b x)
+  | _ => bad_input
+  end.
